@@ -7,7 +7,7 @@ use plonky2::field::extension::{Extendable, FieldExtension};
 use plonky2::field::goldilocks_field::GoldilocksField;
 use plonky2::field::packed::PackedField;
 use plonky2::field::polynomial::PolynomialValues;
-use plonky2::field::types::Field;
+use plonky2::field::types::{Field, PrimeField64};
 use plonky2::hash::hash_types::RichField;
 use plonky2::iop::ext_target::ExtensionTarget;
 use plonky2::plonk::circuit_builder::CircuitBuilder;
@@ -180,4 +180,113 @@ fn c18_stark_malformed() {
         }
     }
     finish("c18_stark_malformed", cases, bad);
+}
+
+// ---- a family of counter STARKs: N columns, declared constraint degree DEG (1, 2 or 3) ----
+// column i at row r holds start + i + r*(i+1); transition (next_i - local_i - (i+1)) [* local_i [* next_i]] == 0;
+// first row: column 0 == pi0; last row: column N-1 == pi1
+#[derive(Copy, Clone)]
+struct Ctr<F: RichField + Extendable<D>, const D: usize, const N: usize, const DEG: usize> { _p: PhantomData<F> }
+
+impl<F: RichField + Extendable<D>, const D: usize, const N: usize, const DEG: usize> Stark<F, D> for Ctr<F, D, N, DEG> {
+    type EvaluationFrame<FE, P, const D2: usize> = StarkFrame<P, P::Scalar, N, 2> where FE: FieldExtension<D2, BaseField = F>, P: PackedField<Scalar = FE>;
+    type EvaluationFrameTarget = StarkFrame<ExtensionTarget<D>, ExtensionTarget<D>, N, 2>;
+
+    fn eval_packed_generic<FE, P, const D2: usize>(&self, vars: &Self::EvaluationFrame<FE, P, D2>, yield_constr: &mut ConstraintConsumer<P>)
+    where FE: FieldExtension<D2, BaseField = F>, P: PackedField<Scalar = FE> {
+        let l = vars.get_local_values(); let n = vars.get_next_values(); let pi = vars.get_public_inputs();
+        yield_constr.constraint_first_row(l[0] - pi[0]);
+        for i in 0..N {
+            let mut c = n[i] - l[i] - P::Scalar::from_canonical_usize(i + 1);
+            if DEG >= 2 { c = c * l[i]; }
+            if DEG >= 3 { c = c * n[i]; }
+            yield_constr.constraint_transition(c);
+        }
+        yield_constr.constraint_last_row(l[N - 1] - pi[1]);
+    }
+
+    fn eval_ext_circuit(&self, builder: &mut CircuitBuilder<F, D>, vars: &Self::EvaluationFrameTarget, yield_constr: &mut RecursiveConstraintConsumer<F, D>) {
+        let l = vars.get_local_values(); let n = vars.get_next_values(); let pi = vars.get_public_inputs();
+        let c = builder.sub_extension(l[0], pi[0]); yield_constr.constraint_first_row(builder, c);
+        for i in 0..N {
+            let s = builder.constant_extension(F::Extension::from_canonical_usize(i + 1));
+            let t = builder.sub_extension(n[i], l[i]);
+            let mut c = builder.sub_extension(t, s);
+            if DEG >= 2 { c = builder.mul_extension(c, l[i]); }
+            if DEG >= 3 { c = builder.mul_extension(c, n[i]); }
+            yield_constr.constraint_transition(builder, c);
+        }
+        let c = builder.sub_extension(l[N - 1], pi[1]); yield_constr.constraint_last_row(builder, c);
+    }
+
+    fn constraint_degree(&self) -> usize { DEG }
+}
+
+fn ctr_battery<const N: usize, const DEG: usize>(bad: &mut Vec<String>, cases: &mut usize) {
+    let config = StarkConfig::standard_fast_config();
+    let stark = Ctr::<F, D, N, DEG> { _p: PhantomData };
+    for rows_n in [16usize, 128] {
+        let tag = format!("counter STARK with {N} columns, degree {DEG}, {rows_n} rows");
+        let start = F::from_canonical_u64(1000);
+        let rows: Vec<[F; N]> = (0..rows_n).map(|r| { let mut row = [F::ZERO; N]; for i in 0..N { row[i] = start + F::from_canonical_usize(i + r * (i + 1)); } row }).collect();
+        let pis = [rows[0][0], rows[rows_n - 1][N - 1]];
+        let prove_it = |rows: Vec<[F; N]>, pis: [F; 2]| -> Result<StarkProofWithPublicInputs<F, C, D>, String> {
+            let t = trace_rows_to_poly_values(rows);
+            match catch_unwind(AssertUnwindSafe(|| prove::<F, C, Ctr<F, D, N, DEG>, D>(stark, &config, t, &pis, None, &mut TimingTree::default()))) {
+                Ok(Ok(p)) => Ok(p), Ok(Err(e)) => Err(format!("prover error: {e}")), Err(_) => Err("prover panicked".into()),
+            }
+        };
+        let verdict = |p: StarkProofWithPublicInputs<F, C, D>| -> &'static str {
+            match catch_unwind(AssertUnwindSafe(|| verify_stark_proof(stark, p, &config, None))) { Ok(Ok(())) => "ACCEPTED", Ok(Err(_)) => "rejected", Err(_) => "PANICKED" }
+        };
+        *cases += 1;
+        let proof = match prove_it(rows.clone(), pis) { Ok(p) => p, Err(e) => { bad.push(format!("{tag}: honest trace: {e}")); continue; } };
+        let v = verdict(proof.clone());
+        if v != "ACCEPTED" { bad.push(format!("{tag}: honest proof {v}")); continue; }
+        // statement changes on an honest proof
+        for k in 0..2 { let mut p2 = proof.clone(); p2.public_inputs[k] += F::ONE; *cases += 1; if verdict(p2) == "ACCEPTED" { bad.push(format!("{tag}: altered public input {k} accepted")); } }
+        for col in [0usize, N - 1] {
+            { let mut p2 = proof.clone(); p2.proof.openings.local_values[col] += FE::ONE; *cases += 1; if verdict(p2) == "ACCEPTED" { bad.push(format!("{tag}: altered local opening {col} accepted")); } }
+            { let mut p2 = proof.clone(); p2.proof.openings.next_values[col] += FE::ONE; *cases += 1; if verdict(p2) == "ACCEPTED" { bad.push(format!("{tag}: altered next-row opening {col} accepted")); } }
+        }
+        // violating traces / false statements handed to the prover: whatever it emits must not be accepted
+        for (what, r, c) in [("first row", 0usize, 0usize), ("interior row", rows_n / 2, N - 1), ("interior row", 3, 0), ("last row", rows_n - 1, N - 1), ("last row", rows_n - 1, 0)] {
+            let mut bad_rows = rows.clone(); bad_rows[r][c] += F::ONE; *cases += 1;
+            if let Ok(p) = prove_it(bad_rows, pis) { if verdict(p) == "ACCEPTED" { bad.push(format!("{tag}: trace with corrupted {what} (col {c}) produced an accepted proof")); } }
+        }
+        for (d0, d1) in [(F::ONE, F::ZERO), (F::ZERO, F::ONE), (F::ONE, F::NEG_ONE), (F::TWO, F::ONE)] {
+            *cases += 1;
+            if let Ok(p) = prove_it(rows.clone(), [pis[0] + d0, pis[1] + d1]) { if verdict(p) == "ACCEPTED" { bad.push(format!("{tag}: false public inputs (+{}, +{}) produced an accepted proof", d0.to_canonical_u64(), d1.to_canonical_u64())); } }
+        }
+    }
+}
+
+// C09: acceptance does not depend on the width or the declared constraint degree; violating traces are never accepted
+#[test]
+fn c09_widths_and_degrees() {
+    let mut bad = Vec::new();
+    let mut cases = 0usize;
+    ctr_battery::<2, 1>(&mut bad, &mut cases);
+    ctr_battery::<3, 2>(&mut bad, &mut cases);
+    ctr_battery::<5, 3>(&mut bad, &mut cases);
+    ctr_battery::<13, 2>(&mut bad, &mut cases);
+    ctr_battery::<16, 2>(&mut bad, &mut cases);
+    ctr_battery::<17, 1>(&mut bad, &mut cases);
+    ctr_battery::<24, 3>(&mut bad, &mut cases);
+    ctr_battery::<40, 2>(&mut bad, &mut cases);
+    // Fibonacci: simultaneous errors in both first-row statements (they must not cancel), and in first + last row
+    let config = StarkConfig::standard_fast_config();
+    for n in [8usize, 64] {
+        let stark = Fib::<F, D> { num_rows: n, _p: PhantomData };
+        let rows = trace(n, F::from_canonical_u64(7), F::from_canonical_u64(6));
+        let pis = [rows[0][0], rows[0][1], rows[n - 1][1]];
+        for (d0, d1, d2) in [(1i64, -1i64, 0i64), (-4, 4, 0), (3, -3, 0), (1, 0, -1), (0, 1, -1), (2, -1, -1), (-4, 4, 1)] {
+            let f = |d: i64| if d >= 0 { F::from_canonical_u64(d as u64) } else { -F::from_canonical_u64((-d) as u64) };
+            cases += 1;
+            if let Ok(p) = prove_rows(stark, rows.clone(), [pis[0] + f(d0), pis[1] + f(d1), pis[2] + f(d2)], &config) {
+                if verdict(stark, p, &config) == "ACCEPTED" { bad.push(format!("Fibonacci {n} rows: false public inputs (offsets {d0}, {d1}, {d2}) produced an accepted proof")); }
+            }
+        }
+    }
+    finish("c09_widths_and_degrees", cases, bad);
 }
